@@ -56,6 +56,9 @@ CHECKS = {
  'C09': dict(technique=TECH,
    text='DynReorder.tla models the _try_to_reorder protocol (exceptions as threaded flags, nesting flag, retry with requests off, re-arm); TLC checks for every existing trigger position that decorated entries return the same function, keep held references, stay enabled and never leak the signal (and exhibits the failures of undecorated entries). On the real code every listed operation of dd.autoref and dd.bdd is run with the request firing at EVERY position k=1..N (N counted by a dry run) on identically rebuilt managers, plus natural triggering at lowered thresholds; TLC judges each run against the untriggered reference run.',
    note=TRUST + 'The harness replaces dd.bdd._request_reordering in its own process by a counting/raising wrapper (no source hook). Open known findings: find_or_add, load, image, preimage, module-level rename run outside the retry wrapper.', design='7 (C09), 9'),
+ 'C19': dict(category='other', technique='explicit TLA+ specification of the Boolean meaning of the C primitives and of a reference-discipline acceptor (CBackends.tla), evaluated by TLC on branch tables and reference-event paths statically extracted from the .pyx sources',
+   text='The wrappers cannot be built or run here, so there is no dynamic trace: every statement of each wrapper\'s apply body is read into a branch table (symbols -> C call term over u, v, w) and TLC checks, for every branch, symbol and Boolean valuation, that the term computes the connective of dd.bdd, that quantifier branches take the variables from u and the body from v, and that the vocabulary is the documented one (subset for buddy). Reference discipline: Function.init takes one reference, __dealloc__ gives back one and is guarded, public methods hand out nodes only through wrap; all paths of every function that takes temporary references (if/else, early return, raise, try/finally, loops) are enumerated and TLC checks every taken reference is released or handed to a table.',
+   note='Trusted: TLC; the ~450-line line/indent reader harness/drivers/pyx_extract.py (an unrecognised statement is a machinery error, exit 2); the stated semantics of the C primitives. Paths ending in an internal AssertionError are exempt; path feasibility is approximated (same-condition ifs and index-parallel loops are correlated).', design='7 (C19)'),
  'C10': dict(technique=TECH,
    text='TLC checks support/is_essential/count/pick/pick_iter of the real code for all functions of 3 variables (all orders, every care set incl. unused declared variables, every n) against BoolFun (Support, CountF, cube cover/disjointness); MC_Sat checks the transcribed _sat_len/count/support recursions against BoolFun on all 256 functions x 6 orders.',
    note=TRUST + 'Exhaustive to 3 variables, 4 sampled (thorough: all orders).', design='7 (C10)'),
